@@ -14,7 +14,14 @@ def rand_quat(rng):
             return [x / n for x in q]
 
 
-def draw_rotation(rng):
+def draw_rotation(rng, lattice=False):
+    if lattice:
+        # quarter and half turns about coordinate axes: the box maps onto itself, so
+        # successive results land on the same mesh
+        seq = rng.choice("xyz")
+        if rng.random() < 0.5:
+            seq = seq.upper()
+        return "from_euler", {"seq": seq, "angles": rng.choice([90.0, 180.0, -90.0, 180.0, 270.0]), "degrees": True}
     m = rng.choice(["from_quat", "from_matrix", "from_rotvec", "from_euler", "from_euler", "align_vector"])
     if m in ("from_quat", "from_matrix"):
         q = rand_quat(rng)
@@ -46,7 +53,9 @@ def draw_rotation(rng):
         na, nb = math.sqrt(sum(x * x for x in a)), math.sqrt(sum(x * x for x in b))
         cos = sum(x * y for x, y in zip(a, b)) / (na * nb)
         if na > 0.2 and nb > 0.2 and abs(cos) < 0.95:
-            return m, {"initial": a, "final": b}
+            # the lengths of the two vectors carry no meaning
+            sa, sb = rng.choice([1.0, 1.0, 1e-5, 1e5, 1e-9]), rng.choice([1.0, 1.0, 1e-5, 1e5, 1e-9])
+            return m, {"initial": [x * sa for x in a], "final": [x * sb for x in b]}
 
 
 class RotatorProfile(HeapProfile):
@@ -54,7 +63,7 @@ class RotatorProfile(HeapProfile):
     name = "rotator"
     invariants = False
     predict = ("mesh", "array", "valid", "vdims", "mapping", "unit")
-    required_probes = ("non_commuting_pair", "clear", "rotate_after_clear", "cmp90", "interior_cells", "outside_cells")
+    required_probes = ("non_commuting_pair", "clear", "rotate_after_clear", "cmp90", "interior_cells", "outside_cells", "kept_result")
     rule = (
         "one case = one seeded history (3-16 steps) on FieldRotator handles over analytic fields (uniform vector / linear scalar) "
         "on 3-d meshes: rotate with every method (quaternion, matrix, rotation vector, intrinsic/extrinsic Euler angles, vector "
@@ -67,7 +76,7 @@ class RotatorProfile(HeapProfile):
     def tier_runs(self, tier):
         return {"quick": 4000, "thorough": 100000}[tier]
 
-    def draw_config(self, rng):
+    def _draw_config(self, rng):
         return {
             "family": rng.choice(["dyadic", "nm"]),
             "steps": rng.randint(3, 16),
@@ -75,6 +84,7 @@ class RotatorProfile(HeapProfile):
             "cubic": rng.random() < 0.4,
             "p_clear": rng.choice([0.0, 0.15, 0.3]),
             "p_refuse": rng.choice([0.0, 0.1]),
+            "lattice": rng.random() < 0.3,
         }
 
     def gen_op(self, rng, st):
@@ -130,10 +140,14 @@ class RotatorProfile(HeapProfile):
             return {"op": "Q.clear", "on": s}
         if rm.nrot >= 8:
             return {"op": "Q.clear", "on": s}
-        m, args = draw_rotation(rng)
+        if rm.nrot >= 1 and rng.random() < 0.15:
+            return {"op": "Q.keep", "on": s, "out": out}
+        if rm.nrot == 0 and rm.content and rm.content["t"] == "uniform" and rng.random() < 0.06:
+            return {"op": "Q.rotate", "on": s, "method": "align_vector", "args": {}, "antiparallel": True, "sa": rng.choice([1.0, 2.0, 0.5]), "sb": rng.choice([1.0, 3.0])}
+        m, args = draw_rotation(rng, lattice=cfg.get("lattice", False) and rng.random() < 0.7)
         o = {"op": "Q.rotate", "on": s, "method": m, "args": args}
         if rng.random() < 0.25:
-            o["n"] = [rng.randint(2, 8) for _ in range(3)]
+            o["n"] = st.extra.setdefault("fixed_n", [rng.randint(2, 8) for _ in range(3)]) if rng.random() < 0.6 else [rng.randint(2, 8) for _ in range(3)]
         return o
 
 
